@@ -62,7 +62,7 @@ var profiles = map[string]Profile{
 	"C01": {Name: "C01", FaultPct: 50, W: baseWeights(4).with("Purge", 2, "Backfill", 1, "Reopen", 1), MinOps: 6, MaxOps: 32, MaxKeys: 3, MaxColl: 1, SmallDoc: 15, OnDiskPct: 20, ReopenPct: 50, ExpPct: 30},
 	"C02": {Name: "C02", W: weights{"Set": 3, "Add": 2, "Delete": 3, "WriteCas": 10, "Remove": 6, "WriteWithXattrs": 6, "WriteTombstoneWithXattrs": 5,
 		"UpdateXattrs": 5, "RemoveXattrs": 4, "SetWithMeta": 4, "DeleteWithMeta": 3, "WriteSubDoc": 4, "SubdocInsert": 3, "SetXattrs": 2, "Update": 2,
-		"WriteResurrectionWithXattrs": 2, "DeleteWithXattrs": 1, "Purge": 1}, MinOps: 6, MaxOps: 28, MaxKeys: 2, MaxColl: 1, OnDiskPct: 10, ExpPct: 10},
+		"WriteResurrectionWithXattrs": 2, "DeleteWithXattrs": 1, "Purge": 1}, MinOps: 6, MaxOps: 28, MaxKeys: 2, MaxColl: 2, OnDiskPct: 10, ExpPct: 10},
 	"C05": {Name: "C05", W: weights{"Set": 4, "SetRaw": 2, "Add": 5, "AddRaw": 2, "Delete": 6, "Remove": 4, "Update": 5, "DeleteWithXattrs": 4,
 		"WriteTombstoneWithXattrs": 4, "DeleteWithMeta": 3, "SetWithMeta": 2, "WriteCas": 7, "WriteResurrectionWithXattrs": 4, "WriteWithXattrs": 4,
 		"UpdateXattrs": 4, "SetXattrs": 4, "Incr": 2, "WriteSubDoc": 2, "RemoveXattrs": 1, "DeleteSubDocPaths": 1, "WriteUpdateWithXattrs": 3,
@@ -85,7 +85,7 @@ var profiles = map[string]Profile{
 	"C14": {Name: "C14", W: weights{"Set": 6, "SetRaw": 3, "Add": 4, "AddRaw": 2, "WriteCas": 5, "Delete": 3, "Remove": 1, "Update": 3, "Incr": 3, "Touch": 8, "GetAndTouchRaw": 4,
 		"UpdateXattrs": 4, "WriteWithXattrs": 5, "WriteResurrectionWithXattrs": 2, "WriteTombstoneWithXattrs": 2, "WriteUpdateWithXattrs": 3, "SetXattrs": 1, "SetWithMeta": 2,
 		"DeleteWithXattrs": 1, "WriteSubDoc": 1, "Advance": 14, "Reopen": 3, "Purge": 1}, MinOps: 5, MaxOps: 26, MaxKeys: 3, MaxColl: 2, OnDiskPct: 30, ReopenPct: 100, ExpPct: 75, ShortExp: true},
-	"C04": {Name: "C04", W: baseWeights(4).with("SetWithMeta", 1, "DeleteWithMeta", 1, "Clock", 8, "Restart", 5, "Reopen", 2, "Advance", 2, "Purge", 1), MinOps: 6, MaxOps: 30, MaxKeys: 2, MaxColl: 2, OnDiskPct: 60, ReopenPct: 100, ExpPct: 10},
+	"C04": {Name: "C04", W: baseWeights(4).with("SetWithMeta", 1, "DeleteWithMeta", 1, "Clock", 8, "Restart", 5, "Reopen", 2, "Advance", 2, "Purge", 1, "RecreateColl", 3, "HLCBurst", 3), MinOps: 6, MaxOps: 30, MaxKeys: 2, MaxColl: 2, OnDiskPct: 60, ReopenPct: 100, ExpPct: 10},
 	"C17": {Name: "C17", W: baseWeights(4).with("Purge", 3, "Backfill", 4, "Touch", 8), MinOps: 6, MaxOps: 30, MaxKeys: 2, MaxColl: 1, OnDiskPct: 10, ExpPct: 20},
 	"C18": {Name: "C18", W: weights{"Set": 6, "SetRaw": 1, "Delete": 2, "WriteSubDoc": 14, "SubdocInsert": 10, "WriteCas": 2, "SetXattrs": 2, "Add": 1, "Purge": 1, "Touch": 1}, MinOps: 5, MaxOps: 24, MaxKeys: 2, MaxColl: 1, SmallDoc: 10, OnDiskPct: 10, ExpPct: 15},
 }
@@ -137,6 +137,9 @@ func (g *gen) jsonBody() string {
 func (g *gen) rawBody() string {
 	if g.p.JSONOnly {
 		return g.jsonBody()
+	}
+	if g.r.Chance(6) {
+		return "" // a present but zero-length body is still a body
 	}
 	if g.r.Chance(50) {
 		return fmt.Sprintf("raw-%d", g.uniq())
@@ -268,7 +271,7 @@ func (g *gen) op(kind string) Op {
 	op := Op{Kind: kind}
 	op.Key = g.keys[g.r.Intn(len(g.keys))]
 	op.Coll = g.r.Intn(g.ncoll)
-	if g.twoB && g.r.Chance(25) && kind != "Backfill" && kind != "Purge" && kind != "Reopen" && kind != "Restart" && kind != "Advance" && kind != "Clock" && kind != "RecreateColl" && kind != "PutDDoc" && kind != "DelDDoc" && kind != "View" && kind != "Query" {
+	if g.twoB && g.r.Chance(25) && kind != "Backfill" && kind != "Purge" && kind != "Reopen" && kind != "Restart" && kind != "Advance" && kind != "Clock" && kind != "RecreateColl" && kind != "HLCBurst" && kind != "PutDDoc" && kind != "DelDDoc" && kind != "View" && kind != "Query" {
 		op.Handle, op.Coll = 9, 0
 	}
 	small := g.p.SmallDoc > 0
@@ -537,6 +540,10 @@ func (g *gen) op(kind string) Op {
 		if g.r.Chance(25) {
 			op.WOpt = 1 // hold the iterator open across a write (on-disk buckets)
 		}
+	case "HLCBurst":
+		op.Key = ""
+		op.Coll = 0
+		op.Dur = []int{100, 5000, 70000, 140000}[g.r.Intn(4)]
 	case "RecreateColl":
 		op.Key = ""
 		if g.ncoll > 1 {
@@ -559,7 +566,7 @@ func GenE1(prop string, seed uint64) *Program {
 	}
 	r := NewRng(seed)
 	g := &gen{r: r, p: p}
-	prog := &Program{Engine: "e1", Seed: seed, ReadAll: p.ReadAll, CrashAt: -1}
+	prog := &Program{Engine: "e1", Prop: prop, Seed: seed, ReadAll: p.ReadAll, CrashAt: -1}
 	prog.OnDisk = r.Chance(p.OnDiskPct)
 	prog.NColl = 1 + r.Intn(p.MaxColl)
 	if prop == "C11" && prog.NColl < 2 {
